@@ -6,11 +6,12 @@ WT=$1; X=$2
 cd "$WT" || exit 3
 git checkout -q -- src; rm -rf tests; mkdir tests
 cp "mutant${X}_demo.rs" "tests/mutant${X}_demo.rs" || exit 3
-BASE=$(cargo test --offline --test "mutant${X}_demo" 2>&1 | grep -E "^test result" | head -1)
+BASE=$(cargo test --offline --test "mutant${X}_demo" 2>&1 | grep -E "^test result:" | head -1)
 git apply "mutant${X}.diff" || { echo "APPLY FAILED"; rm -rf tests; exit 3; }
-LIB=$(cargo test --offline --lib 2>&1 | grep -E "^test result" | head -1)
-DOC=$(cargo test --offline --doc 2>&1 | grep -E "^test result" | head -1)
-MUT=$(cargo test --offline --test "mutant${X}_demo" 2>&1 | grep -E "^test result|error\[|could not compile" | head -1)
+LIB=$(cargo test --offline --lib 2>&1 | grep -E "^test result:" | head -1)
+DOC=$(cargo test --offline --doc 2>&1 | grep -E "^test result:" | head -1)
+MUT=$(cargo test --offline --test "mutant${X}_demo" 2>&1 | grep -E "^test result:|error\[|could not compile|has overflowed its stack|SIGSEGV|SIGABRT" | head -1)
+case "$MUT" in *overflowed*|*SIGSEGV*|*SIGABRT*) MUT="test result: FAILED. (the test process died: $MUT)";; esac
 git checkout -q -- src; rm -rf tests
 echo "demo on unchanged code : $BASE"
 echo "lib tests with change  : $LIB"
